@@ -29,16 +29,18 @@ CHECK = {
                "tool_calls_present": 0.2, "tool_calls_with_boundary_inside_json": 0.12, "tools_sent_no_call_found": 0.03,
                "boundary_inside_json": 0.2, "boundary_at_multibyte_char": 0.1, "empty_chunk": 0.08, "chunks_ge3": 0.4,
                "failure": 0.12, "failure_mid_stream": 0.05, "failure_before_first_chunk": 0.01, "failure_after_last_chunk": 0.01,
-               "reason_length": 0.1, "openai_compared": 0.5, "openai_stream_usage_compared": 0.1, "boundary_after_first_call": 0.03},
+               "tokenize_failure_after_done": 0.025, "tokenize_fault_without_effect": 0.04, "reason_length": 0.1, "openai_compared": 0.5, "openai_stream_usage_compared": 0.1, "boundary_after_first_call": 0.03},
     "rule": "rapid-generated cases: request shape in {generate raw / templated / with suffix / with format json; chat plain / format json / "
             "format schema / tools ('arguments' template) / tools ('parameters' template) / tools+format / tool-capable model without tools}, "
             "model output built from prose words (ASCII, accented, CJK, emoji, U+2028, quotes, braces), tool-call objects in several "
             "spellings and layouts, non-call JSON, optionally truncated; two independent splits into 1-12 chunks at rune boundaries; done "
-            "reason stop|length; counts 0-500; runner failure after j chunks in 1/4 of the cases; include_usage drawn. Per case up to 5 "
+            "reason stop|length; counts 0-500; runner failure after j chunks in 1/4 of the cases; Tokenize failing once the runner has "
+            "delivered Done (tok_fail: 2/5 of the non-raw generate cases, where the handler tokenizes prompt+response for `context`; 1/8 of "
+            "the chat and raw cases, where it must change nothing); include_usage drawn. Per case up to 5 "
             "requests through the real router: native non-streamed under both splits (R1), native streamed through api.Client (R2, R4 on the "
             "raw NDJSON body and on the client's view), OpenAI non-streamed and streamed (R3, R4 on the raw SSE body). Non-trivial = at least "
             "3 chunks with a boundary strictly inside a JSON object/array or next to a multi-byte character, or a runner failure after at "
-            "least one chunk; distinct = distinct hash of the generated case.",
+            "least one chunk, or a Tokenize failure after Done that bites; distinct = distinct hash of the generated case.",
     "assumptions": [
         "runner chunks are valid UTF-8 and Done arrives in a separate content-free response (what llm/server.go forwards from both runners)",
         "done reason is stop or length (DoneReasonConnectionClosed means the client is gone)",
@@ -47,6 +49,9 @@ CHECK = {
         "iteration order, which would make the expected sequence ambiguous)",
         "when tools are sent, prose around the calls has no braces, brackets or unbalanced double quotes, so that the generator knows which "
         "segments a whole-text scan finds (JSON string values inside calls do contain them)",
+        "a Tokenize failure after Done (tok_fail) is expected to bite exactly on /api/generate without raw when the runner reached Done "
+        "(server/routes.go GenerateHandler tokenizes prompt+response there); everywhere else the unchanged relations R1-R4 are asserted, and "
+        "the mock counts its Tokenize errors so that a wrong expectation of the harness shows up as a failure, not as silence",
         "for a failing runner the only equalities asserted are: every representation reports the runner's error message, none carries a final "
         "message, and (no tools) the text streamed before the error is exactly what the runner had produced",
         "/v1/completions is compared for templated and suffix generate requests only (raw and format have no OpenAI-compatible equivalent)",
